@@ -320,6 +320,8 @@ const STEP_COMMON: &str = " Common to all step cases and programs of this check:
 pub fn finish(ctx: &Ctx, property: &str, mut stats: Stats, rule: &str, assumptions: Vec<String>, extra: Map<String, Value>) -> i32 {
     let rule_owned = if ["C01", "C02", "C03", "C04", "C05", "C06", "C07", "C08", "C14", "C20"].contains(&property) { format!("{}{}", rule, STEP_COMMON) } else { rule.to_string() };
     let rule: &str = &rule_owned;
+    // the per-process scratch directory for ELF files (empty by now: every file is removed after use)
+    let _ = std::fs::remove_dir(std::env::temp_dir().join(format!("h8verif-{}", std::process::id())));
     let mut violations: Vec<Failure> = Vec::new();
     // failures whose signature is listed as an open finding for this property are known findings
     for f in std::mem::take(&mut stats.failures) {
